@@ -37,6 +37,19 @@ def _triage(res, engine_name, binary, cands, mkreplay):
             c["replay_output"] = out
             c["replay_args"] = mkreplay(c)
             res.confirmed.append(c)
+        elif verdict == "not_reproduced" and c.get("origin_args"):
+            # depends on what the same process did before (e.g. registration
+            # objects with process lifetime): re-run the part it came from
+            again = []
+            for _ in range(2):
+                rc, so, se, dt = small.run(binary, c["origin_args"], timeout=3000)
+                again.append(any(x["case"] == c["case"] for x in small.parse(so)[0]))
+            if all(again):
+                c["replay_args"] = c["origin_args"]
+                c["replay_kind"] = "part"
+                res.confirmed.append(c)
+            else:
+                res.harness_errors.append("candidate did not reproduce: %s :: %s" % (c["case"], c["detail"][:200]))
         elif verdict == "not_reproduced":
             res.harness_errors.append("candidate did not reproduce: %s :: %s" % (c["case"], c["detail"][:200]))
         else:
@@ -64,6 +77,8 @@ def _run_many(res, binary, arglists, timeout=None):
                 else:
                     res.harness_errors.append("%s %s exited %d: %s" % (binary, " ".join(a), rc, se[-500:]))
                 continue
+            for x in c:
+                x["origin_args"] = list(a)
             cands += c
             samples += s
             summ["_args"] = " ".join(a)
@@ -544,6 +559,17 @@ def c09(res, tier, deadline):
                        "counters": {"programs": 4, "history_depth": int(depth)}})
     res.samples = samples[:8]
     _triage_family(res, "vptr.cpp", cands, run_args=[depth])
+    # virtual_ptr / virtual_shared_ptr parameter kinds over all registries of a
+    # space, every policy flavour; one process runs thousands of registries in
+    # a row, i.e. one long history of re-registrations and updates
+    from . import e1
+    sp = ("n=1-4,k=1,d=2,shapes=V|W|X;n=1-3,k=2,d=2,shapes=VV|RV|VR|WV|XX;n=1-3,k=3,d=1,shapes=VRP|VVV|PNV"
+          if tier == "quick" else
+          "n=1-5,k=1,d=2,shapes=V|W|X;n=1-4,k=2,d=2,shapes=VV|RV|VR|WV|XX;n=1-3,k=3,d=2,shapes=VRP|VVV|PNV|RNV|VNR;"
+          "n=1-3,k=4,d=1,shapes=VVVV|VRPS")
+    runs = [e1.Run(tag, "dispatch", sp, "C01", label="%s/plain/dispatch-virtual_ptr-kinds" % tag)
+            for tag in ("ind", "rel", "dbg", "map", "int")]
+    e1.execute(res, runs, deadline_total=deadline)
 
 
 @check("C20")
@@ -872,9 +898,15 @@ def replay(prop, cand, path):
             print(e, file=sys.stderr)
         return 2
     args = cand.get("replay_args") or ["replay", cand["case"]]
-    rc, so, se, dt = small.run(binary, args, timeout=600)
-    sys.stdout.write(so)
+    rc, so, se, dt = small.run(binary, args, timeout=3000)
+    sys.stdout.write(so[-4000:])
     sys.stderr.write(se[-2000:])
+    if cand.get("replay_kind") == "part":
+        if any(x["case"] == cand["case"] for x in small.parse(so)[0]):
+            print("VIOLATION property=%s replay=%s" % (prop, path))
+            return 1
+        print("not reproduced: property holds on this part of the exploration")
+        return 0
     if rc != 0:
         print("VIOLATION property=%s replay=%s" % (prop, path))
         return 1
